@@ -8,6 +8,7 @@ import barandom
 
 class C02(PropertyCheck):
     pid = "C02"
+    release_too = True       # both build profiles (review 2: the both-modes theorems must be tied to a release build too)
     source_tables = ["BIN_HEADER"]   # tables / constants regenerated from /repo's source (gen/srctables.py)
     rule = ("random contents without c-strings (several labels per address, label names equal to strings, equal names at different "
             "addresses, equal buckets at different addresses, big-endian pointer data), each built by 3 differently shuffled API "
@@ -100,11 +101,13 @@ MANIFEST = dict(
          "hash maps (for all permutations of the association lists, by uniqueness of a stable sort on distinct keys; big-endian label order "
          "by name with address tie-break is a total order), hence archives answering every lookup alike - whatever API history or hash "
          "state produced them - serialize to identical bytes (C02_serialize_order_independent, C02_deterministic); the image EQUALS an "
-         "independently written canonical image of the content (C02_serialize_is_canonical, proved at full strength for archives without "
-         "pending c-strings whose image is below 4 GiB; an Example compares both with literal bytes); parsing a file written by serialize "
-         "and serializing the result reproduces the file byte for byte in both arithmetic profiles (C02_reserialize_identity, also for any "
-         "archive answering every lookup like the parsed one), and in the wording of the property: ANY canonical file - a byte string "
-         "equal to the canonical image of a well-formed content - parses and re-serializes to itself (C02_canonical_file_reserializes). "
+         "independently written canonical image of the content (C02_serialize_is_canonical, for archives without pending c-strings and "
+         "WITHOUT a size hypothesis: serialize and the canonical writer both reject a content whose image exceeds the 32-bit sizes of the "
+         "format - fix 524d15f, finding F25 - and truncate nothing below; an Example compares both with literal bytes); parsing a file "
+         "written by serialize and serializing the result reproduces the file byte for byte in both arithmetic profiles, for EVERY "
+         "successful serialize (C02_reserialize_identity, also for any archive answering every lookup like the parsed one), and in the "
+         "wording of the property: ANY canonical file - a byte string equal to the canonical image of a well-formed content - parses and "
+         "re-serializes to itself (C02_canonical_file_reserializes; a canonical image exists only below 4 GiB). "
          "Model tied to /repo on every run: byte-exact comparison of the extracted model with the real library on shuffled API histories, "
          "an independent Python canonical writer as oracle, images compared across fresh processes, parse -> re-serialize identity.",
     note=TB + "Modelled, not verified: HashMap (association lists in arbitrary order), IndexMap, stable sort_by (A-std); strings are "
